@@ -1,6 +1,7 @@
 package namer
 
 import (
+	"go/token"
 	"slices"
 	"strconv"
 	"strings"
@@ -46,18 +47,45 @@ func (tracker *defaultImportTracker) add(path string) {
 	for i := range len(parts) {
 		localName := golangTrackerLocalName(parts, i+1)
 
-		if tracker.checkStd {
-			if p, ok := std.nameToPath[localName]; ok && p != path {
-				continue
-			}
-		}
-
-		if _, ok := tracker.nameToPath[localName]; !ok {
+		if tracker.usable(localName, path) {
 			tracker.nameToPath[localName] = path
 			tracker.pathToName[path] = localName
-			break
+			return
 		}
 	}
+
+	// every candidate is taken or is not an identifier: number a fallback name
+	base := golangTrackerLocalName(parts, 1)
+	if !token.IsIdentifier(base) {
+		base = "pkg"
+	}
+
+	for n := 2; ; n++ {
+		localName := base + strconv.Itoa(n)
+
+		if tracker.usable(localName, path) {
+			tracker.nameToPath[localName] = path
+			tracker.pathToName[path] = localName
+			return
+		}
+	}
+}
+
+// usable reports whether localName can be bound to path: it must be a non-keyword Go identifier
+// that is neither reserved for another std package nor already taken.
+func (tracker *defaultImportTracker) usable(localName string, path string) bool {
+	if !token.IsIdentifier(localName) || localName == "_" {
+		return false
+	}
+
+	if tracker.checkStd {
+		if p, ok := std.nameToPath[localName]; ok && p != path {
+			return false
+		}
+	}
+
+	_, taken := tracker.nameToPath[localName]
+	return !taken
 }
 
 func toLocalName(parts ...string) string {
